@@ -28,7 +28,8 @@ def main():
     src, mid = sys.argv[1], sys.argv[2]
     meta = json.load(open(os.path.join(src, "meta.json")))
     prop = meta.get("property") or meta.get("breaks_property")
-    checks = sys.argv[3:] or [prop]
+    prev = [r["check"] for r in meta.get("checks_run", [])]  # re-validation: the checks run before
+    checks = sys.argv[3:] or ([prop] + [c for c in prev if c != prop])
     wt = "/tmp/mw/%s" % mid
     sh("git -C /repo worktree remove --force %s" % wt)
     os.makedirs("/tmp/mw", exist_ok=True)
